@@ -135,7 +135,7 @@ for (n, t, also) in [("c01_write_x1h4r1", "thorough", ("C02",)), ("c01_write_x1p
                      ("c01_write_r1x1", "thorough", ("C13",)),
                      ("c01_write_x1h1r1", "extended", ()), ("c01_write_x1r1h2r1h4", "extended", ()), ("c01_write_x1r1h2", "extended", ()),
                      ("c01_write_x2r1", "extended", ()), ("c01_write_h1x1r1", "extended", ()), ("c01_write_x1h2p1", "extended", ())]:
-    reg(H(n, "rawdb", "C01", mem=40, timeout=3000, tier=t, desc=WD, bounds=L2B, functions=L2F, stubs=[FMT, SBG, SLOT], also=also))
+    reg(H(n, "rawdb", "C01", mem=46, timeout=3600, tier=t, desc=WD, bounds=L2B, functions=L2F, stubs=[FMT, SBG, SLOT], also=also))
 
 L2M = ("database world of concrete shape and extent sizes (2-3 extents); symbolic region content lengths, metadata states, "
        "dirty bounds, file length, operation arguments; ghost-mode files")
@@ -237,7 +237,7 @@ reg(
     H("c08_raw_range_dirty", "vecdb", "C08", mem=10, timeout=1200, also=("C03",),
       desc="fold_range_at / try_fold_range_at with deleted and updated slots: exactly the non-deleted reference elements in index order (fold_dirty / try_fold_dirty merging holes, updated, pushed)",
       bounds=CMB + "; at least one deleted slot", functions=["vecdb::ReadWriteRawVec::{fold_dirty,try_fold_dirty}"], stubs=CMS),
-    H("c03_raw_edit_step", "vecdb", "C03", mem=12, timeout=1500, also=("C13",),
+    H("c03_raw_edit_step", "vecdb", "C03", mem=12, timeout=1500, also=("C13", "C20"),
       desc="one editing step (truncate_if_needed_at / update_at / delete_at / push) from an arbitrary valid overlay state equals the reference model pointwise; refused update (index beyond the length) has no effect; stamp unchanged; a slot is never both deleted and updated",
       bounds=CMB, functions=["vecdb::ReadWriteRawVec::{truncate_if_needed_at,truncate_dirty_at,update_at,delete_at,push}", "vecdb::ReadWriteBaseVec::truncate_pushed"], stubs=CMS),
     H("c03_raw_write_step", "vecdb", "C03", mem=30, timeout=2400, tier="extended", also=("C09",),
@@ -307,7 +307,7 @@ reg(
       bounds=C15B + "; mapping as long as the source", functions=["vecdb::LazyDeltaVec::{bulk_try_fold,fold_range_at,collect_one_at}", "vecdb::DeltaSub"], stubs=[WCAP]),
     H("c15_delta_sub_empty_windows", "vecdb", "C15", mem=8, timeout=900,
       desc="same with empty windows allowed (start = h + 1)", bounds=C15B, functions=["vecdb::DeltaSub::count", "vecdb::LazyDeltaVec"], stubs=[WCAP]),
-    H("c15_agg_sparse_reads", "vecdb", "C15", mem=24, timeout=1500, tier="thorough",
+    H("c15_agg_sparse_reads", "vecdb", "C15", mem=40, timeout=2400, tier="thorough",
       desc="LazyAggVec<Sparse> over a first-index mapping with 3 groups incl. empty groups: point reads and range folds equal 'last source value of the group, None for an empty group'",
       bounds=C15B + "; 3 groups", functions=["vecdb::LazyAggVec", "vecdb::Sparse::{try_fold,collect_one}"], stubs=[WCAP]),
     H("c17_meta_roundtrip_valid", "rawdb", "C17", mem=10, timeout=900, memsafe=True, also=("C01",),
